@@ -2,14 +2,14 @@ SPECIFICATION Spec
 CONSTANTS
   Chars <- SmallChars
   MaxRows = 2
-  MaxCells = 1
+  MaxCells = 2
   MaxLen = 1
   FeatureSets <- SomeFeatures
   Sheets <- OneSheet
   CollectAllText = TRUE
-  ExpandRowRepeats = FALSE
+  ExpandRowRepeats = TRUE
   DescendsIntoRowContainers = TRUE
-  ReadsCoveredCells = TRUE
+  ReadsCoveredCells = FALSE
 INVARIANT TypeOK
 INVARIANT ReadsTheLogicalTable
 INVARIANT MissingSheetIsRefused
